@@ -1238,7 +1238,8 @@ func feedText(c *C, r *Root, doc []byte, limit int, discard bool, note string) {
 		}
 		if install(c, r) {
 			if tree, _, terr := textTree(doc, true); terr == nil && len(tree) < 400000 {
-				ans := c.Ask("fromtext 0 %d %d 0 %s", effLimit, b2i(discard), tree)
+				// VERIF_TEXT_SKIP_LIMITED=1: the model of the tree after fixes/prototext-skip-depth.diff
+				ans := c.Ask("fromtext 0 %d %d %d %s", effLimit, b2i(discard), b2i(os.Getenv("VERIF_TEXT_SKIP_LIMITED") == "1"), tree)
 				switch {
 				case ans == "err delegated":
 					c.Hist("text-model:delegated")
@@ -1667,7 +1668,7 @@ func runC26(c *C) {
 	intsStream(c)
 	finding10(c, rs)
 	depthStreams(c, rs)
-	n := c.N(25, 1200)
+	n := c.N(16, 1200)
 	limits := []int{0, 0, 0, 1, 2, 3, 4}
 	for _, r := range rs {
 		md := r.MT.Descriptor()
